@@ -1,5 +1,4 @@
 import H2V.Lemmas.ConnNoPanicPRespRecv
-import H2V.Lemmas.ConnHttpPBody
 /-
   C08 (no panic) — the client response path, part 4: the three functions that append to a receive queue
   (`Recv::recv_headers`, `recv_trailers`, `recv_data`) decomposed into frame steps and ONE append.
@@ -34,11 +33,14 @@ theorem appendTo_stream {t : Streams} {k : Nat} (hk : Live t k) (e : REvent) :
   unfold Stream.notifyRecv
   split <;> exact ⟨rfl, rfl, rfl⟩
 
+theorem notifyPushIfRecvEnded_rp {X : List Nat} (s : Streams) (k : Nat) : RP X s (s.notifyPushIfRecvEnded k) := by
+  unfold Streams.notifyPushIfRecvEnded; rp_auto
+
 -- ===================================================================== `Recv::recv_trailers`
 
 theorem recvRecvTrailers_dec {X : List Nat} (s : Streams) (k : Nat) (h : HeadersIn) :
     RP X s (s.recvRecvTrailers k h).1 ∨
-    ∃ t e, RP X s t ∧ (s.recvRecvTrailers k h).1 = appendTo t k e ∧ ∃ st' u, (s.stream k).state.recvClose = (st', .ok u) := by
+    ∃ t e, RP X s t ∧ RP X (appendTo t k e) (s.recvRecvTrailers k h).1 ∧ ∃ st' u, (s.stream k).state.recvClose = (st', .ok u) := by
   unfold Streams.recvRecvTrailers
   split
   · exact .inl (.refl _ _)
@@ -50,13 +52,15 @@ theorem recvRecvTrailers_dec {X : List Nat} (s : Streams) (k : Nat) (h : Headers
     · exact .inl h1
     · split
       · exact .inl h1
-      · exact .inr ⟨_, _, h1, rfl, st', u, heq⟩
+      · refine .inr ⟨_, .trailers h.fields, h1, ?_, st', u, heq⟩
+        unfold appendTo
+        exact modStreamW_rp _ _ _ (fun x => notifyPush_rs x)
 
 theorem recvRecvTrailers_rp {X : List Nat} (s : Streams) (k : Nat) (h : HeadersIn) (hX : k ∈ X) :
     RP X s (s.recvRecvTrailers k h).1 := by
   rcases recvRecvTrailers_dec (X := X) s k h with h1 | ⟨t, e, h1, h2, _⟩
   · exact h1
-  · rw [h2]; exact h1.trans (appendTo_rp _ _ _ hX)
+  · exact (h1.trans (appendTo_rp _ _ _ hX)).trans h2
 
 -- ===================================================================== `Recv::recv_data`
 
@@ -71,10 +75,57 @@ theorem decContentLength_rs {x y : Stream} {n : Nat} (h : x.decContentLength n =
     · cases h; exact RS.refl _
   · cases h; exact RS.refl _
 
-theorem rdTail_dec {X : List Nat} (s : Streams) (k : Nat) (payload : Bytes) (eos : Bool) (sz flowLen : Nat) :
-    RP X s (ConnHttpP.rdTail s k payload eos sz flowLen).1 ∨
-    ∃ t e, RP X s t ∧ (ConnHttpP.rdTail s k payload eos sz flowLen).1 = appendTo t k e := by
-  unfold ConnHttpP.rdTail
+/-- the part of `recv_data` behind `dec_content_length` (copied from the model; `recvRecvData_eq'` is `rfl`) -/
+def qdTail (s : Streams) (id : Nat) (payload : Bytes) (eos : Bool) (sz flowLen : Nat) : Streams × Except PErr Unit :=
+          let eosRes : Streams × Option PErr :=
+            if eos then
+              if !(s.stream id).ensureContentLengthZero then (s, some (PErr.libraryReset (s.stream id).id PROTOCOL_ERROR))
+              else match (s.stream id).state.recvClose with
+                | (_, .error _) => (s, some (PErr.libraryGoAway PROTOCOL_ERROR))
+                | (st', .ok _) => (s.modStream id fun st => { st with state := st' }, none)
+            else (s, none)
+          match eosRes with
+          | (s, some e) => (s, .error e)
+          | (s, none) =>
+            if !(s.stream id).isRecv then ((s.releaseConnectionCapacity sz false).notifyPushIfRecvEnded id, .ok ())
+            else
+              match (s.stream id).recvFlow.sendData sz with
+              | (fl, .error (.reason r)) => (s.modStream id fun st => { st with recvFlow := fl }, .error (PErr.libraryGoAway r))
+              | (_, .error .assertFailed) => (s.panic "assertion failed: self.window_size.0 >= sz as i32 (stream recv)", .ok ())
+              | (fl, .ok _) =>
+                let s := s.modStream id fun st => { st with recvFlow := fl, inFlightRecvData := wrapAddU32 st.inFlightRecvData sz }
+                let padding := usizeAsU32 (flowLen - payload.length)
+                let s := if padding > 0 then (s.releaseCapacity id padding false).1 else s
+                if payload.isEmpty && !eos then (s, .ok ())
+                else
+                  let s := s.modStream id fun st => { st with pendingRecv := st.pendingRecv ++ [.data payload (!eos)] }
+                  ((s.modStreamW id Stream.notifyRecv).notifyPushIfRecvEnded id, .ok ())
+
+def qFlowLen (payload : Bytes) (padLen : Option Nat) : Nat :=
+  payload.length + (match padLen with | some p => p + 1 | none => 0)
+
+theorem recvRecvData_eq' (s : Streams) (id : Nat) (payload : Bytes) (eos : Bool) (padLen : Option Nat) :
+    s.recvRecvData id payload eos padLen =
+      let flowLen := qFlowLen payload padLen
+      let s := if flowLen > Generated.Consts.MAX_WINDOW_SIZE then s.panic "assertion failed: sz <= MAX_WINDOW_SIZE" else s
+      let sz := usizeAsU32 flowLen
+      if !(s.stream id).state.isLocalError && !(s.stream id).state.isRecvStreaming then
+        (s, .error (PErr.libraryGoAway PROTOCOL_ERROR))
+      else if (s.stream id).state.isLocalError then s.ignoreData sz
+      else
+        match s.consumeConnectionWindow sz with
+        | (s, .error e) => (s, .error e)
+        | (s, .ok _) =>
+          if (s.stream id).recvFlow.windowSz < sz then (s, .error (PErr.libraryReset (s.stream id).id FLOW_CONTROL_ERROR))
+          else
+            match (s.stream id).decContentLength payload.length with
+            | none => (s, .error (PErr.libraryReset (s.stream id).id PROTOCOL_ERROR))
+            | some st1 => qdTail (s.setStream st1) id payload eos sz flowLen := rfl
+
+theorem qdTail_dec {X : List Nat} (s : Streams) (k : Nat) (payload : Bytes) (eos : Bool) (sz flowLen : Nat) :
+    RP X s (qdTail s k payload eos sz flowLen).1 ∨
+    ∃ t e, RP X s t ∧ RP X (appendTo t k e) (qdTail s k payload eos sz flowLen).1 := by
+  unfold qdTail
   dsimp only
   generalize hp : (if eos = true then _ else (s, (none : Option PErr))) = p
   obtain ⟨s1, o⟩ := p
@@ -91,7 +142,7 @@ theorem rdTail_dec {X : List Nat} (s : Streams) (k : Nat) (payload : Bytes) (eos
   | none =>
     dsimp only
     split
-    · exact .inl (h1.trans (releaseConnectionCapacity_rp _ _ _))
+    · exact .inl ((h1.trans (releaseConnectionCapacity_rp _ _ _)).trans (notifyPushIfRecvEnded_rp _ _))
     · split
       · left; rp_auto
       · left; rp_auto
@@ -101,14 +152,16 @@ theorem rdTail_dec {X : List Nat} (s : Streams) (k : Nat) (payload : Bytes) (eos
         have h3 : RP X s s3 := by rw [← hs3]; rp_auto
         split
         · exact .inl h3
-        · exact .inr ⟨_, _, h3, rfl⟩
+        · refine .inr ⟨s3, .data payload (!eos), h3, ?_⟩
+          unfold appendTo
+          exact notifyPushIfRecvEnded_rp _ _
 
 theorem recvRecvData_dec {X : List Nat} (s : Streams) (k : Nat) (payload : Bytes) (eos : Bool) (pad : Option Nat) :
     RP X s (s.recvRecvData k payload eos pad).1 ∨
-    ∃ t e, RP X s t ∧ (s.recvRecvData k payload eos pad).1 = appendTo t k e ∧ (s.stream k).state.isRecvStreaming = true := by
-  rw [ConnHttpP.recvRecvData_eq]
+    ∃ t e, RP X s t ∧ RP X (appendTo t k e) (s.recvRecvData k payload eos pad).1 ∧ (s.stream k).state.isRecvStreaming = true := by
+  rw [recvRecvData_eq']
   dsimp only
-  generalize hs0 : (if ConnHttpP.flowLenOf payload pad > Generated.Consts.MAX_WINDOW_SIZE then _ else s) = s0
+  generalize hs0 : (if qFlowLen payload pad > Generated.Consts.MAX_WINDOW_SIZE then _ else s) = s0
   have h0 : RP X s s0 := by rw [← hs0]; rp_auto
   have hst : s0.stream k = s.stream k := by rw [← hs0]; split; exact panic_stream _ _ _; rfl
   split
@@ -125,7 +178,7 @@ theorem recvRecvData_dec {X : List Nat} (s : Streams) (k : Nat) (payload : Bytes
           cases h2 : (s0.stream k).state.isLocalError with
           | true => exact absurd h2 hni
           | false => rw [h1, h2] at hg; exact absurd rfl hg
-      generalize hc : s0.consumeConnectionWindow (usizeAsU32 (ConnHttpP.flowLenOf payload pad)) = c
+      generalize hc : s0.consumeConnectionWindow (usizeAsU32 (qFlowLen payload pad)) = c
       obtain ⟨s1, r1⟩ := c
       have h1 : RP X s s1 := h0.trans (RP.of_fst_eq hc (consumeConnectionWindow_rp _ _))
       cases r1 with
@@ -141,8 +194,8 @@ theorem recvRecvData_dec {X : List Nat} (s : Streams) (k : Nat) (payload : Bytes
               refine h1.trans (setStream_rp _ _ ?_)
               have := decContentLength_rs hdc
               rw [this.key, stream_key]; exact this
-            rcases rdTail_dec (X := X) (s1.setStream st1) k payload eos (usizeAsU32 (ConnHttpP.flowLenOf payload pad))
-                (ConnHttpP.flowLenOf payload pad) with h3 | ⟨t, e, h3, h4⟩
+            rcases qdTail_dec (X := X) (s1.setStream st1) k payload eos (usizeAsU32 (qFlowLen payload pad))
+                (qFlowLen payload pad) with h3 | ⟨t, e, h3, h4⟩
             · exact .inl (h2.trans h3)
             · exact .inr ⟨t, e, h2.trans h3, h4, hstr⟩
 
@@ -150,21 +203,80 @@ theorem recvRecvData_rp {X : List Nat} (s : Streams) (k : Nat) (payload : Bytes)
     RP X s (s.recvRecvData k payload eos pad).1 := by
   rcases recvRecvData_dec (X := X) s k payload eos pad with h1 | ⟨t, e, h1, h2, _⟩
   · exact h1
-  · rw [h2]; exact h1.trans (appendTo_rp _ _ _ hX)
+  · exact (h1.trans (appendTo_rp _ _ _ hX)).trans h2
 
 -- ===================================================================== `Recv::recv_headers` (client)
 
-theorem rhSt_role (s : Streams) (k : Nat) (st' : State) : (ConnHttpP.rhSt s k st').counts.isServer = s.counts.isServer := by
-  unfold ConnHttpP.rhSt; rw [modStream_counts]
+/-- stage 0 of `recv_headers`: the state transition alone -/
+def qhSt (s : Streams) (k : Nat) (st' : State) : Streams := s.modStream k fun st => { st with state := st' }
 
-theorem ite_panic_counts (c : Prop) [Decidable c] (s : Streams) (m : String) : (if c then s else s.panic m).counts = s.counts := by
-  split
-  · rfl
-  · exact panic_counts _ _
-theorem ite_panic_counts' (c : Prop) [Decidable c] (s : Streams) (m : String) : (if c then s.panic m else s).counts = s.counts := by
-  split
-  · exact panic_counts _ _
-  · rfl
+def qhRefuse (s : Streams) (k : Nat) (st' : State) (isInitial : Bool) : Bool :=
+  isInitial && !((qhSt s k st').stream k).isCounted && !(qhSt s k st').counts.canIncNumRecvStreams
+
+/-- stage 1: the stream is counted -/
+def qhPre (s : Streams) (k : Nat) (h : HeadersIn) (st' : State) (isInitial : Bool) : Streams :=
+  let s := s.modStream k fun st => { st with state := st' }
+  if isInitial && !(s.stream k).isCounted then
+    let s := if h.sid > s.recv.lastProcessedId then s.modRecv fun r => { r with lastProcessedId := h.sid } else s
+    s.incNumRecvStreams k
+  else s
+
+/-- stage 2: `content-length` -/
+def qhCl (s : Streams) (id : Nat) (h : HeadersIn) : Streams × Option PErr :=
+      if (s.stream id).contentLength != .head then
+        match h.fields.find? (fun f => f.1 == Http.str "content-length") with
+        | some (_, v :: rest) =>
+          match parseU64 v with
+          | none => (s, some (PErr.libraryReset (s.stream id).id PROTOCOL_ERROR))
+          | some cl =>
+            if rest.any (fun o => parseU64 o != some cl) then (s, some (PErr.libraryReset (s.stream id).id PROTOCOL_ERROR))
+            else
+            let s := s.modStream id fun st => { st with contentLength := .remaining cl }
+            let statusNot204304 := match h.status with
+              | some st => st != Http.str "204" && st != Http.str "304"
+              | none => true
+            if h.eos && cl > 0 && statusNot204304 then (s, some (PErr.libraryReset (s.stream id).id PROTOCOL_ERROR)) else (s, none)
+        | _ => (s, none)
+      else (s, none)
+
+/-- stage 3: the head checks and the hand-over -/
+def qhTail (s : Streams) (id : Nat) (h : HeadersIn) (isInitial : Bool) : Streams × RecvHeadersRes :=
+      if h.isOverSize then (s, .oversize (s.counts.isServer && isInitial))
+      else if h.hasProtocol && s.counts.isServer && !s.recv.isExtendedConnectProtocolEnabled then
+        (s, .state (PErr.libraryReset (s.stream id).id PROTOCOL_ERROR))
+      else if h.status.isSome && s.counts.isServer then (s, .state (PErr.libraryReset (s.stream id).id PROTOCOL_ERROR))
+      else
+        let status := h.status.getD (Http.str "200")
+        if s.counts.isServer then
+          match convertPollMessageServer h with
+          | .malformed => (s, .state (PErr.libraryReset (s.stream id).id PROTOCOL_ERROR))
+          | .unsupported => (s, .unsupported)
+          | .ok method uri =>
+            let s := s.modStream id fun st => { st with pendingRecv := st.pendingRecv ++ [.request method uri h.fields] }
+            let s := s.modStreamW id Stream.notifyRecv
+            let s := s.notifyPushIfRecvEnded id
+            ((s.qPush .pendingAccept id).1, .ok)
+        else if !h.isInformational then
+          let s := s.modStream id fun st => { st with pendingRecv := st.pendingRecv ++ [.headers status h.fields] }
+          ((s.modStreamW id Stream.notifyRecv).notifyPushIfRecvEnded id, .ok)
+        else
+          let s := s.modStream id fun st => { st with pendingRecv := st.pendingRecv ++ [.informational status h.fields] }
+          (s.modStreamW id Stream.notifyRecv, .ok)
+
+theorem recvRecvHeaders_eq' (s : Streams) (k : Nat) (h : HeadersIn) :
+    s.recvRecvHeaders k h =
+      match (s.stream k).state.recvOpen h.eos h.isInformational with
+      | (_, .error e) => (s, .state e)
+      | (st', .ok isInitial) =>
+        if qhRefuse s k st' isInitial then
+          (qhSt s k st', .state (PErr.libraryReset ((qhSt s k st').stream k).id REFUSED_STREAM))
+        else
+        match qhCl (qhPre s k h st' isInitial) k h with
+        | (s, some e) => (s, .state e)
+        | (s, none) => qhTail s k h isInitial := rfl
+
+theorem qhSt_role (s : Streams) (k : Nat) (st' : State) : (qhSt s k st').counts.isServer = s.counts.isServer := by
+  unfold qhSt; rw [modStream_counts]
 
 theorem incNumRecvStreams_role (s : Streams) (k : Nat) : (s.incNumRecvStreams k).counts.isServer = s.counts.isServer := by
   unfold Streams.incNumRecvStreams
@@ -175,9 +287,9 @@ theorem incNumRecvStreams_role (s : Streams) (k : Nat) : (s.incNumRecvStreams k)
   rw [hm]
   repeat (first | rfl | rw [panic_counts] | split)
 
-theorem rhPre_role (s : Streams) (k : Nat) (h : HeadersIn) (st' : State) (ini : Bool) :
-    (ConnHttpP.rhPre s k h st' ini).counts.isServer = s.counts.isServer := by
-  unfold ConnHttpP.rhPre
+theorem qhPre_role (s : Streams) (k : Nat) (h : HeadersIn) (st' : State) (ini : Bool) :
+    (qhPre s k h st' ini).counts.isServer = s.counts.isServer := by
+  unfold qhPre
   dsimp only
   split
   · rw [incNumRecvStreams_role]
@@ -185,10 +297,9 @@ theorem rhPre_role (s : Streams) (k : Nat) (h : HeadersIn) (st' : State) (ini : 
     · show (Streams.counts (Streams.modStream _ _ _)).isServer = _; rw [modStream_counts]
     · rw [modStream_counts]
   · rw [modStream_counts]
-theorem rhCl_role (s : Streams) (k : Nat) (h : HeadersIn) :
-    (ConnHttpP.rhCl s k h).1.counts.isServer = s.counts.isServer := by
-  unfold ConnHttpP.rhCl
-  repeat (first | rfl | (dsimp only; rw [modStream_counts]) | split)
+theorem qhCl_role (s : Streams) (k : Nat) (h : HeadersIn) : (qhCl s k h).1.counts.isServer = s.counts.isServer := by
+  unfold qhCl
+  repeat (first | rfl | (dsimp only; rw [modStream_counts]) | split | dsimp only)
 
 /-- the non-`Ok` answers of `recv_headers` after the state transition, on a client: stream errors -/
 inductive HdrErr : RecvHeadersRes → Prop
@@ -199,90 +310,103 @@ inductive HdrErr : RecvHeadersRes → Prop
 def HdrEv (h : HeadersIn) (e : REvent) : Prop :=
   (∃ a f, e = .headers a f) ∨ (h.isInformational = true ∧ ∃ a f, e = .informational a f)
 
-theorem rhCl_err' (s : Streams) (k : Nat) (h : HeadersIn) :
-    (ConnHttpP.rhCl s k h).2 = none ∨ ∃ i r init, (ConnHttpP.rhCl s k h).2 = some (.reset i r init) := by
-  unfold ConnHttpP.rhCl
+theorem qhCl_err' (s : Streams) (k : Nat) (h : HeadersIn) :
+    (qhCl s k h).2 = none ∨ ∃ i r init, (qhCl s k h).2 = some (.reset i r init) := by
+  unfold qhCl
   repeat (first | exact .inl rfl | exact .inr ⟨_, _, _, rfl⟩ | split | dsimp only)
 
-theorem rhCl_err {s s1 : Streams} {k : Nat} {h : HeadersIn} {e : PErr} (hc : ConnHttpP.rhCl s k h = (s1, some e)) :
+theorem qhCl_err {s s1 : Streams} {k : Nat} {h : HeadersIn} {e : PErr} (hc : qhCl s k h = (s1, some e)) :
     ∃ i r init, e = .reset i r init := by
-  rcases rhCl_err' s k h with h1 | ⟨i, r, init, h1⟩
+  rcases qhCl_err' s k h with h1 | ⟨i, r, init, h1⟩
   · rw [hc] at h1; cases h1
   · rw [hc] at h1; cases h1; exact ⟨i, r, init, rfl⟩
 
-theorem rhTail_dec (t : Streams) (k : Nat) (h : HeadersIn) (ini : Bool) (hsv : t.counts.isServer = false) :
-    ((ConnHttpP.rhTail t k h ini).1 = t ∧ HdrErr (ConnHttpP.rhTail t k h ini).2) ∨
-    (∃ e, (ConnHttpP.rhTail t k h ini).1 = appendTo t k e ∧ (ConnHttpP.rhTail t k h ini).2 = .ok ∧ HdrEv h e) := by
-  unfold ConnHttpP.rhTail
+theorem qhTail_dec {X : List Nat} (t : Streams) (k : Nat) (h : HeadersIn) (ini : Bool) (hsv : t.counts.isServer = false) :
+    ((qhTail t k h ini).1 = t ∧ HdrErr (qhTail t k h ini).2) ∨
+    (∃ e, RP X (appendTo t k e) (qhTail t k h ini).1 ∧ (qhTail t k h ini).2 = .ok ∧ HdrEv h e) := by
+  unfold qhTail
   simp only [hsv, Bool.false_and, Bool.and_false, Bool.false_eq_true, if_false]
   split
   · exact .inl ⟨rfl, .oversize⟩
   · split
-    · exact .inr ⟨_, rfl, rfl, .inl ⟨_, _, rfl⟩⟩
+    · refine .inr ⟨.headers (h.status.getD (Http.str "200")) h.fields, ?_, rfl, .inl ⟨_, _, rfl⟩⟩
+      unfold appendTo
+      exact notifyPushIfRecvEnded_rp _ _
     · next hinf =>
-      refine .inr ⟨_, rfl, rfl, .inr ⟨?_, _, _, rfl⟩⟩
+      refine .inr ⟨.informational (h.status.getD (Http.str "200")) h.fields, .refl _ _, rfl, .inr ⟨?_, _, _, rfl⟩⟩
       cases hh : h.isInformational with
       | true => rfl
       | false => rw [hh] at hinf; exact absurd rfl hinf
 
-theorem rhPre_rp {X : List Nat} (s : Streams) (k : Nat) (h : HeadersIn) (st' : State) (ini : Bool) :
-    RP X (ConnHttpP.rhSt s k st') (ConnHttpP.rhPre s k h st' ini) := by
-  unfold ConnHttpP.rhPre ConnHttpP.rhSt
+theorem qhPre_rp {X : List Nat} (s : Streams) (k : Nat) (h : HeadersIn) (st' : State) (ini : Bool) :
+    RP X (qhSt s k st') (qhPre s k h st' ini) := by
+  unfold qhPre qhSt
   dsimp only
   rp_auto
 
-theorem rhCl_rp {X : List Nat} (u : Streams) (k : Nat) (h : HeadersIn) : RP X u (ConnHttpP.rhCl u k h).1 := by
-  unfold ConnHttpP.rhCl
+theorem qhCl_rp {X : List Nat} (u : Streams) (k : Nat) (h : HeadersIn) : RP X u (qhCl u k h).1 := by
+  unfold qhCl
   rp_auto
 
+theorem recvOpen_err {st st' : State} {a b : Bool} {e : PErr} (h : st.recvOpen a b = (st', .error e)) :
+    e = PErr.libraryGoAway PROTOCOL_ERROR := by
+  obtain ⟨i⟩ := st
+  unfold State.recvOpen at h
+  cases i with
+  | «open» l r => cases r <;> first | (cases h; done) | (simp only [Prod.mk.injEq, Except.error.injEq] at h; exact h.2.symm)
+  | halfClosedLocal p => cases p <;> first | (cases h; done) | (simp only [Prod.mk.injEq, Except.error.injEq] at h; exact h.2.symm)
+  | _ => first | (cases h; done) | (simp only [Prod.mk.injEq, Except.error.injEq] at h; exact h.2.symm)
+
 theorem recvRecvHeaders_dec {X : List Nat} (s : Streams) (k : Nat) (h : HeadersIn) (hsv : s.counts.isServer = false) :
-    (s.recvRecvHeaders k h).1 = s ∨
+    s.recvRecvHeaders k h = (s, .state (PErr.libraryGoAway PROTOCOL_ERROR)) ∨
     ∃ st' ini, (s.stream k).state.recvOpen h.eos h.isInformational = (st', .ok ini) ∧
-      ∃ t, RP X (ConnHttpP.rhSt s k st') t ∧
+      ∃ t, RP X (qhSt s k st') t ∧
         (((s.recvRecvHeaders k h).1 = t ∧ HdrErr (s.recvRecvHeaders k h).2) ∨
-         (∃ e, (s.recvRecvHeaders k h).1 = appendTo t k e ∧ (s.recvRecvHeaders k h).2 = .ok ∧ HdrEv h e)) := by
-  rw [ConnHttpP.recvRecvHeaders_eq]
+         (∃ e, RP X (appendTo t k e) (s.recvRecvHeaders k h).1 ∧ (s.recvRecvHeaders k h).2 = .ok ∧ HdrEv h e)) := by
+  rw [recvRecvHeaders_eq']
   split
-  · exact .inl rfl
+  · next st' e heq => rw [recvOpen_err heq]; exact .inl rfl
   · next st' ini heq =>
     refine .inr ⟨st', ini, heq, ?_⟩
     split
     · exact ⟨_, .refl _ _, .inl ⟨rfl, by exact HdrErr.state _ _ _⟩⟩
-    · have h1 := rhPre_rp (X := X) s k h st' ini
-      have h2 := rhCl_rp (X := X) (ConnHttpP.rhPre s k h st' ini) k h
-      have hr : (ConnHttpP.rhCl (ConnHttpP.rhPre s k h st' ini) k h).1.counts.isServer = false := by
-        rw [rhCl_role, rhPre_role]; exact hsv
-      generalize hc : ConnHttpP.rhCl (ConnHttpP.rhPre s k h st' ini) k h = c at h2 hr
+    · have h1 := qhPre_rp (X := X) s k h st' ini
+      have h2 := qhCl_rp (X := X) (qhPre s k h st' ini) k h
+      have hr : (qhCl (qhPre s k h st' ini) k h).1.counts.isServer = false := by
+        rw [qhCl_role, qhPre_role]; exact hsv
+      generalize hc : qhCl (qhPre s k h st' ini) k h = c at h2 hr
       obtain ⟨t, o⟩ := c
       cases o with
       | some e =>
-        obtain ⟨i, r, init, he⟩ := rhCl_err hc
+        obtain ⟨i, r, init, he⟩ := qhCl_err hc
         subst he
         exact ⟨t, h1.trans h2, .inl ⟨rfl, .state _ _ _⟩⟩
-      | none => exact ⟨t, h1.trans h2, rhTail_dec t k h ini hr⟩
+      | none => exact ⟨t, h1.trans h2, qhTail_dec (X := X) t k h ini hr⟩
 
-theorem rhTail_rp {X : List Nat} (t : Streams) (k : Nat) (h : HeadersIn) (ini : Bool) (hX : k ∈ X) :
-    RP X t (ConnHttpP.rhTail t k h ini).1 := by
+theorem qhTail_rp {X : List Nat} (t : Streams) (k : Nat) (h : HeadersIn) (ini : Bool) (hX : k ∈ X) :
+    RP X t (qhTail t k h ini).1 := by
   have ha : ∀ e, RP X t ((t.modStream k fun st => { st with pendingRecv := st.pendingRecv ++ [e] }).modStreamW k Stream.notifyRecv) :=
     fun e => appendTo_rp t k e hX
-  unfold ConnHttpP.rhTail
-  repeat (first | exact .refl _ _ | exact ha _ | exact (ha _).trans (qPush_rp _ _ _) | split | dsimp only)
+  unfold qhTail
+  have hb : ∀ e, RP X t (((t.modStream k fun st => { st with pendingRecv := st.pendingRecv ++ [e] }).modStreamW k
+      Stream.notifyRecv).notifyPushIfRecvEnded k) := fun e => (ha e).trans (notifyPushIfRecvEnded_rp _ _)
+  repeat (first | exact .refl _ _ | exact ha _ | exact hb _ | exact (hb _).trans (qPush_rp _ _ _) | split | dsimp only)
 
 theorem recvRecvHeaders_rp {X : List Nat} (s : Streams) (k : Nat) (h : HeadersIn) (hX : k ∈ X) :
     RP X s (s.recvRecvHeaders k h).1 := by
-  rw [ConnHttpP.recvRecvHeaders_eq]
+  rw [recvRecvHeaders_eq']
   split
   · exact .refl _ _
   · next st' ini heq =>
-    have h0 : RP X s (ConnHttpP.rhSt s k st') := by
-      unfold ConnHttpP.rhSt; exact modStream_rpx _ _ _ (fun _ => rfl) hX
+    have h0 : RP X s (qhSt s k st') := by
+      unfold qhSt; exact modStream_rpx _ _ _ (fun _ => rfl) hX
     split
     · exact h0
-    · have h2 := (h0.trans (rhPre_rp s k h st' ini)).trans (rhCl_rp _ k h)
-      generalize ConnHttpP.rhCl (ConnHttpP.rhPre s k h st' ini) k h = c at h2
+    · have h2 := (h0.trans (qhPre_rp s k h st' ini)).trans (qhCl_rp _ k h)
+      generalize qhCl (qhPre s k h st' ini) k h = c at h2
       obtain ⟨t, o⟩ := c
       cases o with
       | some e => exact h2
-      | none => exact h2.trans (rhTail_rp t k h ini hX)
+      | none => exact h2.trans (qhTail_rp t k h ini hX)
 
 end H2V.Lemmas.ConnNoPanicP
